@@ -770,7 +770,17 @@ impl Prop for C11b {
                 c = alt(big, c);
             }
             let mut lets = vec![];
-            let class = if i % 7 == 3 {
+            let class = if i % 11 == 5 {
+                // a user variable named like a built-in: `$name` is the variable, `$$name` the
+                // built-in, also side by side under `#`
+                let name = EXACT_BUILTINS[(i / 11) % EXACT_BUILTINS.len()];
+                lets.push((name.to_string(), c));
+                let d = diff(Re::Builtin(name.into()), Re::Var(name.into()));
+                match d.class() {
+                    Some(k) if !k.is_empty() && i % 2 == 1 => d,
+                    _ => alt(diff(Re::Builtin(name.into()), Re::Char('5')), Re::Var(name.into())),
+                }
+            } else if i % 7 == 3 {
                 // through a variable bound to a class
                 if let Re::Diff(a, b) = c.clone() {
                     lets.push(("k".to_string(), *a));
@@ -1030,6 +1040,28 @@ impl Prop for C13 {
                 }
                 let u = alt(Re::Builtin(a.into()), Re::Builtin(b.into()));
                 out.push(("builtin-union", class_spec(u, if k % 3 == 1 { Shape::Ctx } else { Shape::Loop }, vec![])));
+            }
+        }
+        // a built-in next to itself minus the LAST character of one of its pieces, as competing
+        // rules of one state: two range sets with the same number of ranges and the same start
+        // points but one different end point
+        for name in BUILTIN_NAMES {
+            let cls = match builtin_cls(name) {
+                Some(c) if c.0.len() >= 2 => c,
+                _ => continue,
+            };
+            let drift = known_drift(name);
+            let n = cls.0.len();
+            let m = (0..n)
+                .map(|k| cls.0[(n / 2 + k) % n])
+                .filter(|(a, b)| b > a)
+                .filter_map(|(_, b)| char::from_u32(b))
+                .find(|c| !drift.contains(*c as u32));
+            if let Some(m) = m {
+                let narrow = plus(diff(Re::Builtin(name.into()), Re::Char(m)));
+                let wide = plus(Re::Builtin(name.into()));
+                out.push(("builtin-same-starts", simple_spec(vec![(narrow.clone(), None), (wide.clone(), None), (Re::Any, None)], false, vec![])));
+                out.push(("builtin-same-starts", simple_spec(vec![(wide, None), (cat(narrow, Re::Char(m)), None), (Re::Any, None)], false, vec![])));
             }
         }
         let n_pairs = tier.pick(30, pairs.len());
